@@ -437,6 +437,33 @@ theorem store_insert_on_reachable (H : List UInt8 → UInt64) (s : Intern.Store)
   obtain ⟨a, size, mask⟩ := s
   exact store_insert_tie hr size mask (k + 2) (by omega) hk52 (by rw [hr.length]; exact hk) hsz p e hpe
 
+/-- `ObjStringStore::get` on any table related to the model's: both fail together or find related entries (or both nothing). -/
+theorem store_get_rel {es : List (Option TEntry)} {a : Array (Option Intern.Entry)} (hr : Rel es a) (hlen : es.length < 2 ^ 64)
+    (size mask : Nat) (hash : BitVec 64) (s : String) :
+    Agree (fun (o : Option TEntry) (o' : Option Intern.Entry) => o.map viewP = o'.map eraseE)
+      (Fns.store_get a.size (hash, s) es (mask : Int)) (Intern.Store.get ⟨a, size, mask⟩ (UInt64.ofBitVec hash) (bytesOf s)) := by
+  unfold Fns.store_get Intern.Store.get Intern.findIndex
+  rw [store_find_index_rel hr hlen hash s mask a.size]
+  cases hf : Intern.findIndexAux a (UInt64.ofBitVec hash) (bytesOf s) mask a.size ((UInt64.ofBitVec hash).toNat &&& mask) with
+  | error f => simp [obsFind, Agree]
+  | ok i =>
+    have hneg : ¬ ((i : Int) < 0) := by omega
+    have hget := hr.get i
+    simp only [obsFind, Rs.M.bind_ok, Rs.idx, hneg, if_false, Int.toNat_natCast]
+    cases h1 : es[i]? with
+    | none =>
+      cases h2 : a[i]? with
+      | none => simp [Agree]
+      | some y => rw [h1, h2] at hget; simp at hget
+    | some x =>
+      cases h2 : a[i]? with
+      | none => rw [h1, h2] at hget; simp at hget
+      | some y =>
+        rw [h1, h2] at hget
+        simp only [Option.map_some, Option.some.injEq] at hget
+        cases x <;> cases y <;> simp_all [Agree]
+
+#print axioms store_get_rel
 #print axioms store_insert_on_reachable
 #print axioms findIndexAux_erase
 #print axioms store_find_index_rel
